@@ -43,6 +43,7 @@ ALL = ['C%02d' % i for i in range(1, 21)]
 
 CTX = None
 PROP_LIST = ALL
+LIVE = {}
 KNOWN = {e.get('key') for e in json.load(open(os.path.join(HERE, 'known_findings.json')))['findings'] if e.get('status') == 'known'}
 
 
@@ -87,10 +88,24 @@ def generated_bodies(ctx):
         unit = name.split('::')[0]
         cr = ctx.crate(unit)
         for b in cr.named(name):
-            for x in [b] + cr.descendants(b):
-                role = ctx.role(x)
-                if role:
-                    out.append((unit, x))  # includes the user-body closure: its alterations are triaged as out of scope
+            # only what is live once the scope test is folded: the macro emits both branches, one is dead per function
+            from cfa.spec import Spec
+            todo = [b]
+            seen = set()
+            while todo:
+                x = todo.pop()
+                if x.id in seen:
+                    continue
+                seen.add(x.id)
+                live = Spec(ctx.prog, x, {}).reachable_blocks()
+                LIVE[x.id] = live
+                if ctx.role(x):
+                    out.append((unit, x))
+                for c in cr.children(x):
+                    # the closure / coroutine is live if a live block of its parent mentions it (aggregate or call operand)
+                    txt = json.dumps([x.blocks[i] for i in sorted(live) if i < len(x.blocks)])
+                    if json.dumps(c.id) in txt:
+                        todo.append(c)
     return out
 
 
@@ -101,7 +116,7 @@ def enumerate_sites(ctx, only=None, generated=False):
         if (not generated and not in_scope(body)) or (only and only not in body.name):
             continue
         for bi, bl in enumerate(body.blocks):
-            if bl['cleanup']:
+            if bl['cleanup'] or (body.id in LIVE and bi not in LIVE[body.id]):
                 continue
             for si, st in enumerate(bl['stmts']):
                 if st['k'] == 'assign' and 'bin' in st['rv']:
